@@ -55,15 +55,25 @@ def run(ctx):
         ctx.ob("U2", nk.defp, "binding-key-components", loc(nk.sp), ok,
                f"key derives from parameters {ps}; the wire format " + ("carries" if carries_target else "does NOT carry") + " the per-datagram target, so the key must include " + ("the sender" if carries_target else "sender and target (one stream per target)"))
     # binding lookup key in the client loop
+    from .common import outermost
     loops = [b for b in bodies if b.defp.startswith("octo_squirrel_client") and any(c.name == "LruCache::entry" for (_, c, _) in b.calls())]
+    # a table access moved into a helper is judged in the loop that calls the helper (flat view)
+    tops_ = []
+    for b in loops:
+        ctxs_ = [fb_ for (fb_, _) in prog.flat_contexts(b.defp)] + [fb_ for (fb_, _) in prog.flat_contexts(b.root)]
+        ctxs_ = [fb_ for fb_ in ctxs_ if fb_.defp.startswith("octo_squirrel_client")]
+        tops_.append(max(ctxs_, key=lambda x: x.n) if ctxs_ else prog.flat(b.defp))
+    loops = list({fb_.defp: fb_ for fb_ in tops_}.values())
     ctx.floor("U2", "client binding-table loop", 1, len(loops))
     for b in loops:
         for (blk, c, t) in b.calls():
             if c.name == "LruCache::entry":
                 p = op_place(t["args"][1])
                 locs, calls, _ = b.slice_back([p[0]]) if p else (set(), [], [])
-                via_new_key = any("indirect" in cc.f and _is_upvar(b, cc, "new_key") for (_, cc, _) in calls) or any(b.local_name(l) == "key" for l in locs)
-                from_sender = any(b.local_name(l) == "sender" for l in locs)
+                # by role: the key is what the protocol's key function (a function value handed to the loop) makes of this datagram's
+                # sender (a socket address that arrived with the datagram) [and target]
+                via_new_key = any("indirect" in cc.f for (_, cc, _) in calls) or any(b.local_name(l) == "key" for l in locs)
+                from_sender = any(b.local_name(l) == "sender" or b.local_ty(l).replace("&", "").strip() == "std::net::SocketAddr" for l in locs)
                 ctx.ob("U2", b.defp, "lookup-key-from-this-datagram", loc(t["sp"]), via_new_key and from_sender, "table lookup key is new_key(sender, target) of the datagram being routed" if via_new_key and from_sender else "table lookup key does not derive from the datagram's sender")
     # U1 call site: new_binding passes the datagram's sender on to to_inbound_recv
     nb = [b for b in bodies if "template::new_binding" in b.defp and any("indirect" in c.f for (_, c, _) in b.calls())]
